@@ -65,7 +65,7 @@ theorem decodeFor_encode_append (P : Params) (hP : P.Wf) (sch : Schema) (L : LRo
         rw [Bool.or_comm]; congr 1
         simp only [decide_eq_decide]; exact eq_comm
     rw [hvalid]
-    simp only [List.map_cons, firstVisible]
+    simp only [firstVisible]
     by_cases hv : creatorVisible {} s L.cur.creator = true
     · simp only [hv, if_true, toRow_of_layoutOk hl]
     · simp only [hv, Bool.false_eq_true, if_false]
